@@ -146,6 +146,30 @@ def run(ctx, rep):
     rep.check(need <= cal, 'R-C20-4', 'state_status reads bad / rehash / justsynced / time of the stripe info', s.file, str(sorted(need & cal)), function='state_status', construct='info flags')
     loops = [c for c in s.calls('info_get') if s.loop_of(c.block) is not None]
     rep.check(len(loops) >= 2, 'R-C20-4', 'state_status scans the info of every position in loops', s.file, '%d loop sites' % len(loops), function='state_status', construct='scan all')
+    # the unsynced counter: a stripe counts iff some disk has a block waiting for parity (block_has_invalid_parity: CHG, REP
+    # and DELETED alike) and some disk has a file there -- the same predicates the sync engine uses to decide that a stripe needs work
+    rep.rule('R-C20-4u', 'status counts a stripe as unsynced iff one block has invalid parity (any of CHG/REP/DELETED) and one block has a file', 1)
+    from ..guards import guards_of as _g
+    from ..stripe import StripeLoop as _SL
+    incs = []
+    for al in [i for i in s.all_insts() if i.op == 'alloca' and i.var == 'unsynced_blocks']:
+        for u in s.users.get(al.id, ()):
+            if u.op == 'store' and s.strip(u.ops[1]) == ['i', al.id]:
+                v = s.inst_of(u.ops[0])
+                if v is not None and v.op == 'add':
+                    incs.append(u)
+    if len(incs) != 1:
+        raise AnalysisBroken('state_status: unsynced counter increment not found')
+    feeding = set()
+    for a_, pol in _g(s, incs[0]):
+        if not pol:
+            continue
+        for st_ in [i for i in s.all_insts() if i.op == 'store' and s.expr(i.ops[1]).lstrip('&') == a_ and s.const_of(i.ops[0]) == 1]:
+            for g_, p_ in _g(s, st_):
+                if 'block_has' in g_:
+                    feeding.add((g_.split('(')[0].lstrip('('), p_))
+    want_ = {('block_has_invalid_parity', True), ('block_has_file', True)}
+    rep.check(feeding == want_, 'R-C20-4u', 'state_status: ++unsynced_blocks depends on block_has_invalid_parity and block_has_file of the blocks of the stripe', incs[0].loc(), 'predicates feeding the counter: %s' % sorted(feeding), function='state_status', construct='unsynced predicate')
     # pool
     for fn in ('make_link', 'clean_dir'):
         g = P.fn(fn)
